@@ -1,4 +1,6 @@
 import MithrilModel.DigesterProofs
+import MithrilModel.MmrBytes
+import MithrilModel.NameOrder
 /-!
 # C12 — The database digest depends only on the immutable files up to the beacon
 
@@ -150,5 +152,154 @@ example : Irrelevant 3 (⟨str "00001.chunk.tmp", true, ()⟩ : Entry Unit) ∧
   · revert h; decide
   · have : numberOf (str "00003.primary") = some 3 := by decide
     rw [this] at hn; cases hn; omega
+
+end C12
+
+/-! ## byte level, any two numbers of files (`MithrilModel/MmrBytes.lean`) and the order of the leaves
+(`MithrilModel/NameOrder.lean`)
+
+Leaves are the RAW 64 bytes of the hex digests (`MKTreeNode::from(&String)`: not hashed), nodes are
+`Blake2s256(left ‖ right)` (32 bytes). The collision disjunct is explicit: two different byte strings
+out of the ones hashed during the two root computations (`MmrBytes.hashInputs`, the log of an
+instrumented builder run: `MmrBytes.rootLog_eq`). The extra disjunct "a Blake2s output is half a hex
+digest" is needed for arbitrary tree shapes (`C12_tree_injective_bytes`) and is NOT needed for the MMR
+builder, whose trees never have a (node, leaf) pair of children (`MmrBytes.mmr_good`). -/
+namespace C12
+open Digester
+
+/-- **Root injectivity, byte level, any two numbers of leaves.** Two lists of 64-byte leaves with the
+same MMR root under `merge a b = H (a ++ b)`, `H` with 32 output bytes, are equal, or the proof hands out
+two different hashed byte strings with the same hash. -/
+theorem C12_root_injective_bytes (H : Bytes → Bytes) (hH : ∀ x, (H x).length = 32)
+    (ls ls' : List Bytes) (hl : ∀ a ∈ ls, a.length = 64) (hl' : ∀ a ∈ ls', a.length = 64)
+    (r : Bytes) (h : MmrBuild.root (merge H) ls = some r) (h' : MmrBuild.root (merge H) ls' = some r) :
+    ls = ls' ∨ ∃ x ∈ MmrBytes.hashInputs H ls, ∃ y ∈ MmrBytes.hashInputs H ls', x ≠ y ∧ H x = H y :=
+  MmrBytes.root_injective_bytes_any H 64 32 (by decide) hH ls ls' hl hl' r h h'
+
+/-- … for the Lean Blake2s-256 the driver runs: no hypothesis about the hash -/
+theorem C12_root_injective_blake2s (ls ls' : List Bytes) (hl : ∀ a ∈ ls, a.length = 64) (hl' : ∀ a ∈ ls', a.length = 64)
+    (r : Bytes) (h : MmrBuild.root (merge Blake2.blake2s256L) ls = some r)
+    (h' : MmrBuild.root (merge Blake2.blake2s256L) ls' = some r) :
+    ls = ls' ∨ ∃ x ∈ MmrBytes.hashInputs Blake2.blake2s256L ls, ∃ y ∈ MmrBytes.hashInputs Blake2.blake2s256L ls',
+      x ≠ y ∧ Blake2.blake2s256L x = Blake2.blake2s256L y :=
+  MmrBytes.root_injective_blake2s ls ls' hl hl' r h h'
+
+/-- `hashInputs` is what an instrumented run of the builder hashes (and the root is its value) -/
+theorem C12_hash_inputs_are_the_log (H : Bytes → Bytes) (ls : List Bytes) :
+    MmrBuild.root (MmrBytes.mergeLog H) (ls.map fun a => (a, [])) =
+      (MmrBuild.root (merge H) ls).map fun r => (r, MmrBytes.hashInputs H ls) :=
+  MmrBytes.rootLog_eq H ls
+
+/-- **Arbitrary tree shapes** over raw 64-byte hex digests: equal values mean equal trees, or an explicit
+collision among the hashed strings, or an explicit straddle `a ++ H x = H y ++ b` between a leaf `a` of one
+tree and a leaf `b` of the other — in which the Blake2s output `H y` is the first half of the hex digest
+`a` (32 ASCII hex characters) and `H x` the second half of `b`. -/
+theorem C12_tree_injective_bytes (H : Bytes → Bytes) (hH : ∀ x, (H x).length = 32) (t t' : ExprTree.E Bytes)
+    (hl : ∀ a ∈ ExprTree.leaves t, MmrBytes.IsHexDigest a) (hl' : ∀ a ∈ ExprTree.leaves t', MmrBytes.IsHexDigest a)
+    (h : MmrBytes.value H t = MmrBytes.value H t') :
+    t = t' ∨
+    (∃ x ∈ MmrBytes.inputs H t, ∃ y ∈ MmrBytes.inputs H t', x ≠ y ∧ H x = H y) ∨
+    (∃ a b x y, ((a ∈ ExprTree.leaves t ∧ x ∈ MmrBytes.inputs H t ∧ b ∈ ExprTree.leaves t' ∧ y ∈ MmrBytes.inputs H t') ∨
+                 (a ∈ ExprTree.leaves t' ∧ x ∈ MmrBytes.inputs H t' ∧ b ∈ ExprTree.leaves t ∧ y ∈ MmrBytes.inputs H t)) ∧
+      a ++ H x = H y ++ b ∧ H y = a.take 32 ∧ H x = b.drop 32 ∧
+      (∀ c ∈ H y, MmrBytes.isHexByte c = true) ∧ (∀ c ∈ H x, MmrBytes.isHexByte c = true)) := by
+  rcases MmrBytes.tree_injective_bytes H 64 32 hH (by decide) t t' (fun a ha => (hl a ha).1)
+    (fun a ha => (hl' a ha).1) h with e | k | ⟨a, ma, x, mx, b, mb, y, my, he⟩ | ⟨a, ma, x, mx, b, mb, y, my, he⟩
+  · exact Or.inl e
+  · exact Or.inr (Or.inl k)
+  · obtain ⟨h1, h2, h3, h4⟩ := MmrBytes.straddle_hex_half H hH a b x y (hl a ma) (hl' b mb) he
+    exact Or.inr (Or.inr ⟨a, b, x, y, Or.inl ⟨ma, mx, mb, my⟩, he, h1, h2, h3, h4⟩)
+  · obtain ⟨h1, h2, h3, h4⟩ := MmrBytes.straddle_hex_half H hH a b x y (hl' a ma) (hl b mb) he
+    exact Or.inr (Or.inr ⟨a, b, x, y, Or.inr ⟨ma, mx, mb, my⟩, he, h1, h2, h3, h4⟩)
+
+/-- the length hypotheses are necessary, for every hash: raw leaves of other lengths give equal roots for
+different lists (root cause of the known findings C09-concat-split / C09-node-as-leaf; not reachable
+here, the leaves of the database digest are 64 bytes) -/
+theorem C12_raw_leaves_note (H : Bytes → Bytes) (a b : Bytes) :
+    (MmrBuild.root (merge H) [[1, 2], [3]] = MmrBuild.root (merge H) [[1], [2, 3]] ∧
+      ([[1, 2], [3]] : List Bytes) ≠ [[1], [2, 3]]) ∧
+    (MmrBuild.root (merge H) [H (a ++ b)] = MmrBuild.root (merge H) [a, b] ∧ [H (a ++ b)] ≠ [a, b]) :=
+  ⟨MmrBytes.variable_length_counterexample H, MmrBytes.node_length_leaf_counterexample H a b⟩
+
+variable {γ : Type} (sha : γ → Bytes) (H : Bytes → Bytes)
+
+/-- **Sensitivity, byte level, any two databases.** Without a cache, two databases (any numbers of
+covered files) with the same root have the same ordered list of file digests, or two different hashed
+strings collide under the node hash: a changed, added or MISSING covered file — also an inner one —
+changes the root. -/
+theorem C12_sensitive_any_shape (hsha : ∀ x, (sha x).length = 64) (hH : ∀ x, (H x).length = 32)
+    (es es' : List (Entry γ)) (beacon beacon' : Nat) (r r' : Result)
+    (h : rootIn sha H [] es beacon = .ok r) (h' : rootIn sha H [] es' beacon' = .ok r')
+    (hroot : r.root = r'.root) :
+    r.leaves = r'.leaves ∨
+      ∃ x ∈ MmrBytes.hashInputs H r.leaves, ∃ y ∈ MmrBytes.hashInputs H r'.leaves, x ≠ y ∧ H x = H y := by
+  obtain ⟨fs, _, hl, hr⟩ := rootIn_leaves sha H es beacon r h
+  obtain ⟨fs', _, hl', hr'⟩ := rootIn_leaves sha H es' beacon' r' h'
+  refine C12_root_injective_bytes H hH r.leaves r'.leaves ?_ ?_ r.root hr (by rw [hroot]; exact hr')
+  · intro a ha; rw [hl] at ha; obtain ⟨f, _, rfl⟩ := List.mem_map.mp ha; exact hsha _
+  · intro a ha; rw [hl'] at ha; obtain ⟨f, _, rfl⟩ := List.mem_map.mp ha; exact hsha _
+
+/-- … hence the two databases have equally many covered files with the same content position by
+position, or one of the two hashes collides -/
+theorem C12_change_detected_any_shape (hsha : ∀ x, (sha x).length = 64) (hH : ∀ x, (H x).length = 32)
+    (es es' : List (Entry γ)) (beacon beacon' : Nat) (r r' : Result) (fs fs' : List (IFile γ))
+    (h : rootIn sha H [] es beacon = .ok r) (h' : rootIn sha H [] es' beacon' = .ok r')
+    (hf : toProcess es beacon = .ok fs) (hf' : toProcess es' beacon' = .ok fs') (hroot : r.root = r'.root) :
+    (∃ hlen : fs.length = fs'.length, ∀ i (hi : i < fs.length), fs[i].content = (fs'[i]'(hlen ▸ hi)).content) ∨
+      (∃ x y : γ, x ≠ y ∧ sha x = sha y) ∨
+      (∃ x ∈ MmrBytes.hashInputs H r.leaves, ∃ y ∈ MmrBytes.hashInputs H r'.leaves, x ≠ y ∧ H x = H y) := by
+  obtain ⟨gs, hg, hl, _⟩ := rootIn_leaves sha H es beacon r h
+  obtain ⟨gs', hg', hl', _⟩ := rootIn_leaves sha H es' beacon' r' h'
+  rw [hf] at hg; rw [hf'] at hg'
+  cases hg; cases hg'
+  rcases C12_sensitive_any_shape sha H hsha hH es es' beacon beacon' r r' h h' hroot with heq | hc
+  · by_cases hcol : ∃ x y : γ, x ≠ y ∧ sha x = sha y
+    · exact Or.inr (Or.inl hcol)
+    · left
+      rw [hl, hl'] at heq
+      have hlen : fs.length = fs'.length := by simpa using congrArg List.length heq
+      refine ⟨hlen, ?_⟩
+      intro i hi
+      have := congrArg (fun l => l[i]?) heq
+      simp only [List.getElem?_map, List.getElem?_eq_getElem hi, List.getElem?_eq_getElem (hlen ▸ hi),
+        Option.map_some, Option.some.injEq] at this
+      apply Classical.byContradiction
+      intro hne
+      exact hcol ⟨_, _, hne, this⟩
+  · exact Or.inr (Or.inr hc)
+
+/-- **The order of the leaves is the Rust order for ALL file numbers** — `Digester.le`, the order the
+listing is sorted with, is `ImmutableFile::cmp(..) != Greater` (`immutable_file.rs:192-196`: the number
+first, then the path); between files of different numbers the names are never compared, so the string
+order of the zero padded names (which breaks at 100000, `C10.C10_name_order_boundary`) is irrelevant for
+the digest. -/
+theorem C12_leaf_order_is_rust_order (a b : IFile γ) :
+    (le a b = true ↔ NameOrder.rustCmp a b ≠ .gt) ∧
+    (a.number < b.number → le a b = true ∧ le b a = false ∧ NameOrder.rustCmp a b = .lt ∧ NameOrder.rustCmp b a = .gt) :=
+  ⟨NameOrder.digester_le_iff_rust a b, NameOrder.digester_number_first a b⟩
+
+/-- … and the listing is in the order of the numbers, also across 99999 / 100000 -/
+theorem C12_listing_sorted_by_number (es : List (Entry γ)) (fs : List (IFile γ)) (h : listAll es = some fs) :
+    fs.Pairwise (fun a b => a.number ≤ b.number) :=
+  NameOrder.listAll_sorted_by_number es fs h
+
+theorem C12_listing_boundary :
+    (listAll [NameOrder.e100000, NameOrder.e99999]).map (fun fs => fs.map (fun f => (f.number, f.name)))
+      = some [(99999, str "99999.chunk"), (100000, str "100000.chunk")] ∧
+    lexLe (str "99999.chunk") (str "100000.chunk") = false :=
+  ⟨NameOrder.listAll_boundary, by decide⟩
+
+/-- non-vacuity of the byte level theorems: a constant 32-byte "hash" and two different lists of
+64-byte leaves of different lengths with the same root — the hypotheses hold (and the conclusion is the
+collision between the hashed strings) -/
+example :
+    let H : Bytes → Bytes := fun _ => List.replicate 32 0
+    let a : Bytes := List.replicate 64 48
+    let b : Bytes := List.replicate 64 49
+    (∀ x, (H x).length = 32) ∧ (∀ x ∈ [a, b], x.length = 64) ∧ (∀ x ∈ [b, a, a], x.length = 64) ∧
+    MmrBuild.root (merge H) [a, b] = some (List.replicate 32 0) ∧
+    MmrBuild.root (merge H) [b, a, a] = some (List.replicate 32 0) ∧ [a, b] ≠ [b, a, a] := by
+  refine ⟨fun _ => by simp, by simp, by simp, ?_, ?_, by simp⟩ <;>
+    simp [MmrBuild.root, MmrBuild.peaksOf, MmrBuild.push, MmrBuild.mergeTail, MmrBuild.bag, merge]
 
 end C12
